@@ -280,12 +280,32 @@ def _loose_base(v):
 
 def variant_walker(ctx):
     """The function of reconcile.rs that walks the variants of an enum and hands their payload types to check_type — found by
-    what it does (a match over RustEnumVariant with check_type calls), whatever it is called."""
+    what it does (a match over RustEnumVariant with check_type calls), whatever it is called.  Second form: a *provider* — a
+    function with a match over RustEnumVariant that yields the payload types (`fn variant_types_mut(v) -> impl Iterator`),
+    named in reconcile_aliases as the mapper of an adaptor over the variants whose elements go to check_type; it is returned
+    with `provider: True` and judged by payload coverage instead of by its check_type calls."""
     from .. import coverage
-    cands = [g for g in ctx.astq['functions'] if g['file'].endswith('reconcile.rs') and coverage.find_matches(g, 'RustEnumVariant') and any(c.get('f') == 'check_type' for c in g['calls'])]
-    if len(cands) != 1:
-        raise core.Incomplete(f'reconcile.rs: the function that walks enum variants (match over RustEnumVariant + check_type) expected once, found {len(cands)}')
-    return cands[0]
+    inrec = [g for g in ctx.astq['functions'] if g['file'].endswith('reconcile.rs') and coverage.find_matches(g, 'RustEnumVariant')]
+    cands = [g for g in inrec if any(c.get('f') == 'check_type' for c in g['calls'])]
+    if len(cands) == 1:
+        return cands[0]
+    if not cands:
+        ra = ctx.fn('reconcile_aliases', file='reconcile.rs')
+        used = set()
+        for c in ra['calls']:
+            if c.get('f') != 'check_type':
+                continue
+            for x in (y for a in c.get('args', []) for y in vt.walk(a)):
+                if x.get('k') == 'call' and x.get('f') in ('flat_map', 'map', 'flat_map_mut') and x.get('args'):
+                    a0 = vt.unvar(x['args'][0])
+                    if isinstance(a0, dict) and a0.get('k') == 'path':
+                        used.add(str(a0.get('text', '')).replace(' ', '').split('::')[-1])
+                    elif isinstance(a0, dict) and a0.get('k') == 'closure':
+                        used |= {str(y.get('f')).split('::')[-1] for y in vt.walk(a0.get('body') or {}) if y.get('k') == 'call' and y.get('recv') is None}
+        prov = [g for g in inrec if g['name'].split('::')[-1] in used]
+        if len(prov) == 1:
+            return dict(prov[0], provider=True)
+    raise core.Incomplete(f'reconcile.rs: the function that walks enum variants (match over RustEnumVariant + check_type) expected once, found {len(cands)}')
 
 
 def id_assigned(fx, full):
@@ -490,7 +510,14 @@ def n3(ctx, rep):
         ok = any(needle in t for t in texts)
         rep.check(ok, 'N3', f'reconcile_aliases:{what}', 'passed to check_type', f'reconcile_aliases never applies check_type to {what}: references from there to a serde(rename)d type keep the original name', {'file': ra['file'], 'line': ra['line']})
     ok = any(c.get('f') == cvname for c in ra['calls'])
+    if cv.get('provider'):
+        # the variants' types come out of the provider and every one of them is handed to check_type in reconcile_aliases
+        ok = any(c.get('f') == 'check_type' and any(str(vt.unvar(x.get('args', [{}])[0] if x.get('args') else {}).get('text', '')).replace(' ', '').split('::')[-1] == cvname or any(y.get('k') == 'call' and str(y.get('f')).split('::')[-1] == cvname for y in vt.walk(x)) for a in c.get('args', []) for x in vt.walk(a) if x.get('k') == 'call' and x.get('f') in ('flat_map', 'map')) for c in ra['calls'])
     rep.check(ok, 'N3', 'reconcile_aliases:enum variants', 'check_variant called', 'reconcile_aliases does not visit enum variants', {'file': ra['file'], 'line': ra['line']})
+    if cv.get('provider'):
+        from .. import coverage
+        coverage.check_recursion(rep, 'N3', ctx, ctx.fn(cv['name'], file='reconcile.rs'), 'RustEnumVariant', [], 'check_variant', needle='RustType|RustField', uses_ok=True)
+        return
     ev = ctx.item('enum', 'RustEnumVariant')
     mv = [mm for mm in cv['matches'] if any(v.startswith('RustEnumVariant::') for a in mm['arms'] for v in a['variants'])]
     if not mv:
